@@ -76,6 +76,7 @@ struct conn {
     int host = 0;
     int stream_id = 0;
     std::string b2c;            // bytes the broker queued, not yet read by the client
+    long long b2c_total = 0;    // bytes the broker has queued on this connection so far
     bool client_closed = false; // client closed / replaced the stream
     bool dead = false;          // transport fault: every further op fails with dead_ec
     error_code dead_ec;
@@ -280,7 +281,7 @@ struct world {
     // ---- broker -> client
     void broker_send(int cid, const std::string& bytes) {
         auto* c = find_conn(cid); if (!c || c->dead || c->client_closed) return;
-        c->b2c += bytes;
+        c->b2c += bytes; c->b2c_total += (long long) bytes.size();
         if (auto_deliver) if (auto* s = stream_of_conn(cid)) try_deliver(*s);
     }
     void broker_close(int cid) {
